@@ -8,14 +8,19 @@ wt = f"/tmp/seed{rnd}-{pid}"
 prev = ""
 if rnd:
     import os
-    mf = f"/verif/seeded/{pid}/meta.json"
-    if os.path.exists(mf):
-        m = json.load(open(mf))
-        prev = ("\n\nNOTE: a colleague already delivered the following change for this property; yours must be DIFFERENT "
-                "in mechanism and location (another function, another clause of the property, another kind of slip - "
-                "prefer stateful / multi-step sequences, two cooperating sites that each look fine alone, caching or "
-                "aliasing slips, tolerance / scaling slips, or rarely used code paths and argument forms):\n  PREVIOUS CHANGE: "
-                + str(m.get("summary", ""))[:900] + "\n  IT NEEDED: " + str(m.get("needs_to_manifest", ""))[:500])
+    items = []
+    for name in [pid] + [f"{pid}-{k}" for k in range(2, int(rnd))]:
+        mf = f"/verif/seeded/{name}/meta.json"
+        if os.path.exists(mf):
+            m = json.load(open(mf))
+            items.append("  PREVIOUS CHANGE: " + str(m.get("summary", ""))[:700] + "\n  IT NEEDED: "
+                         + str(m.get("needs_to_manifest", ""))[:400])
+    if items:
+        prev = ("\n\nNOTE: colleagues already delivered the following change(s) for this property; yours must be DIFFERENT "
+                "in mechanism and location from all of them (another function among the relevant ones, another clause of the "
+                "property statement, another kind of slip - prefer stateful / multi-step sequences, two cooperating sites that "
+                "each look fine alone, caching or aliasing slips, tolerance / scaling / unit slips, dtype or storage-format "
+                "slips, or rarely used code paths, options and argument forms):\n" + "\n".join(items))
 print(f"""You are a software engineer helping to evaluate how robust a test effort is. You work ONLY inside the git worktree {wt} (a checkout of the Python library pmgbergen/porepy; Python interpreter: /venv/bin/python; always run with the environment variable PYTHONPATH={wt}/src so that this checkout is imported, e.g. `cd {wt} && PYTHONPATH={wt}/src /venv/bin/python demo.py`). There is no network. The directory /verif is OFF LIMITS: do not read, list or use anything in it. Do not touch /repo.
 
 The library is supposed to satisfy this property:
@@ -30,7 +35,7 @@ YOUR TASK: make ONE realistic change to the library source under {wt}/src/porepy
 Steps:
 1. Read the relevant source and the existing tests under {wt}/tests that exercise it, to learn what the tests pin down and what they do not.
 2. Make the change (source files only; never edit tests).
-3. Write a small standalone demonstration program {wt}-out/demo.py that checks the property on a specific input/sequence: it must exit with status 0 on the ORIGINAL code and with a non-zero status (assertion failure) on the CHANGED code. Verify both (switch with `git diff > /tmp/seed-'PID'-out/p.diff; git apply -R p.diff; ...; git apply p.diff` - NEVER use `git stash`: the stash is shared between all worktrees of the repository and other people are working in sibling worktrees).
+3. Write a small standalone demonstration program {wt}-out/demo.py that checks the property on a specific input/sequence: it must exit with status 0 on the ORIGINAL code and with a non-zero status (assertion failure) on the CHANGED code. Verify both (switch with `git diff > {wt}-out/p.diff; git apply -R p.diff; ...; git apply p.diff` - NEVER use `git stash`: the stash is shared between all worktrees of the repository and other people are working in sibling worktrees).
 4. Run the existing tests that cover the changed code with the change applied and confirm they pass: `cd {wt} && PYTHONPATH={wt}/src /venv/bin/python -m pytest -q -p no:cacheprovider --no-cov -x tests/<relevant files>` (CPU is scarce: run only the relevant test files, never the whole suite; if a relevant test fails, make the change subtler).
 5. Deliver in the directory {wt}-out/ (create it): patch.diff (output of `git -C {wt} diff`), demo.py, and meta.json with the keys: "property" ("{pid}"), "summary" (what the change is), "needs_to_manifest" (what specific input / sequence / configuration is needed for the violation to show), "tests_run" (the pytest command lines you ran with the change applied and their outcome), "demo_original" and "demo_changed" (exit status of demo.py on original and changed code).
 Leave the change applied in the worktree (uncommitted). Do not commit. Your final message should summarise the change in 3-5 sentences.""")
